@@ -879,7 +879,55 @@ func brief(rsp *api.CreateContainerResponse) string {
 	return strings.Join(parts, ", ")
 }
 
+// runC20 sends the request of the case and then its follow-up requests, all to the same pair
+// of plugin processes; every request is judged on its own.
 func runC20(c C20Case) ev.Outcome {
+	ev.Get("C20").AddExtra("requests", 1+len(c.Then))
+	first := c
+	first.Then = nil
+	o := runOne(first)
+	if o.Fail != "" || len(c.Then) == 0 {
+		return o
+	}
+	since := 0 // requests since the last one with the first request's texts
+	for i, st := range c.Then {
+		o2 := runOne(c.stepCase(st))
+		if o2.Fail != "" {
+			o2.Fail = fmt.Sprintf("follow-up request %d (%s, %d request(s) after the same annotation texts were sent): %s", i+1, st.Kind, since+1, o2.Fail)
+			o2.Classes, o2.NonTrivial = o.Classes, true
+			return o2
+		}
+		o.Lenient = append(o.Lenient, o2.Lenient...)
+		o.Overloaded = o.Overloaded || o2.Overloaded
+		if st.Kind == "other" {
+			since++
+			continue
+		}
+		tag := "repeat:" + st.Kind
+		if since == 0 {
+			tag += "_at_once"
+		} else {
+			tag += "_after_others"
+		}
+		o.Classes = append(o.Classes, tag)
+		expectsError := false
+		for _, k := range o2.Classes {
+			if k == "outcome:rejected" {
+				expectsError = true
+			}
+		}
+		if expectsError {
+			o.Classes = append(o.Classes, "repeat:malformed_again")
+		} else {
+			o.Classes = append(o.Classes, "repeat:wellformed_again")
+		}
+		since = 0
+	}
+	o.NonTrivial = true
+	return o
+}
+
+func runOne(c C20Case) ev.Outcome {
 	f, err := getFixture(c.Opts)
 	if err != nil {
 		// infrastructure, not a verdict: make the shard end inconclusive
@@ -970,6 +1018,7 @@ func TestExh_C20(t *testing.T) {
 	r.SetExtra("name_length_sweep_requests", sweepNameLengths(t, r))
 	r.SetExtra("separator_sweep_requests", sweepSeparators(t, r))
 	r.SetExtra("combination_sweep_requests", sweepCombinations(t, r))
+	r.SetExtra("repetition_sweep_cases", sweepRepetition(t, r))
 	r.SetExtra("exhaustive", false) // only the key-presence sub-domain is enumerated
 	r.SetExtra("exhaustive_subdomain", "per plugin option set (6) and key family (4), all 32 presence combinations of {container key for this container, for a prefix-named container, for an extension-named container, pod key, bare key}")
 }
@@ -1144,34 +1193,30 @@ func sweepSeparators(t *testing.T, r *ev.Recorder) int {
 	return n
 }
 
-// sweepCombinations: every malformation of an entry combined with an unknown field that a
-// decoder meets in an earlier entry, in the same entry before the bad field, between the real
-// fields, or after them (scalar, mapping and list values in turn); and with a duplicated
-// key, an anchor/alias pair in a neighbouring entry and a trailing second document. A
-// malformed payload must fail the request whatever else it carries. Controls: each
-// irregularity alone on a well-formed payload (outcome left open; when accepted, the
-// annotated values must be applied). Container-scoped keys, every writer style.
-func sweepCombinations(t *testing.T, r *ev.Recorder) int {
-	const ctr = "c0"
-	n, turn := 0, 0
-	type entry = func() *node
-	good := map[string]entry{
+type entry = func() *node
+
+// malform is one way of making a device / mount / rlimit entry malformed.
+type malform struct {
+	name string
+	do   func(el *node) *node // returns the entry to use (possibly replaced)
+}
+
+// malformTable: per struct-valued family a good entry, the entry that gets malformed, and
+// the malformations.
+func malformTable() (good, victim map[string]entry, malforms map[string][]malform) {
+	good = map[string]entry{
 		famDev: func() *node { return devNode(Dev{Path: "/dev/good", Type: "c", Major: 1, Minor: 3}) },
 		famMnt: func() *node {
 			return mntNode(Mnt{Source: "/good", Destination: "/mnt/good", Type: "bind", Options: []string{"ro"}})
 		},
 		famRlim: func() *node { return rlimNode(Rlim{Type: "RLIMIT_CORE", Hard: u64p(10), Soft: u64p(5)}) },
 	}
-	victim := map[string]entry{
+	victim = map[string]entry{
 		famDev: func() *node { return devNode(Dev{Path: "/dev/victim", Type: "b", Major: 8, Minor: 1}) },
 		famMnt: func() *node {
 			return mntNode(Mnt{Source: "/victim", Destination: "/mnt/victim", Type: "bind", Options: []string{"rw"}})
 		},
 		famRlim: func() *node { return rlimNode(Rlim{Type: "nofile", Hard: u64p(4096), Soft: u64p(1024)}) },
-	}
-	type malform struct {
-		name string
-		do   func(el *node) *node // returns the entry to use (possibly replaced)
 	}
 	set := func(k string, v *node) func(*node) *node {
 		return func(el *node) *node { el.put(k, v); return el }
@@ -1188,7 +1233,7 @@ func sweepCombinations(t *testing.T, r *ev.Recorder) int {
 			return el
 		}
 	}
-	malforms := map[string][]malform{
+	malforms = map[string][]malform{
 		famDev: {
 			{"str_in_int", set("major", nR("abc"))}, {"quoted_number", set("minor", nR(`"3"`))}, {"out_of_range", set("uid", nR("-1"))},
 			{"out_of_range", set("file_mode", nR("4294967296"))}, {"out_of_range", set("major", nR("1.5"))}, {"quoted_number", set("gid", nR("10 users"))},
@@ -1207,6 +1252,20 @@ func sweepCombinations(t *testing.T, r *ev.Recorder) int {
 			{"seq_in_string", set("type", nL(nS("nofile")))}, {"elem_type", func(*node) *node { return nS("nofile") }},
 		},
 	}
+	return good, victim, malforms
+}
+
+// sweepCombinations: every malformation of an entry combined with an unknown field that a
+// decoder meets in an earlier entry, in the same entry before the bad field, between the real
+// fields, or after them (scalar, mapping and list values in turn); and with a duplicated
+// key, an anchor/alias pair in a neighbouring entry and a trailing second document. A
+// malformed payload must fail the request whatever else it carries. Controls: each
+// irregularity alone on a well-formed payload (outcome left open; when accepted, the
+// annotated values must be applied). Container-scoped keys, every writer style.
+func sweepCombinations(t *testing.T, r *ev.Recorder) int {
+	const ctr = "c0"
+	n, turn := 0, 0
+	good, victim, malforms := malformTable()
 	uvals := []func() *node{
 		func() *node { return nS("ignored") },
 		func() *node { return nM().put("a", nR("1")).put("b", nL(nS("x"))) },
@@ -1334,6 +1393,87 @@ func sweepCombinations(t *testing.T, r *ev.Recorder) int {
 		}
 		a := Ann{Family: famCDI, Style: style, CDI: []string{"vendor.com/device=a", "vendor.com/device=b"}, Extra: []string{exSecondDoc}}
 		run(a, a.node(), true)
+	}
+	return n
+}
+
+// sweepRepetition: every kind of malformed payload (and a well-formed one) of every family
+// sent twice in a row, with one other request in between, and once more for a container of
+// another name; every request is judged on its own — a malformed payload fails every time, a
+// well-formed one is applied every time.
+func sweepRepetition(t *testing.T, r *ev.Recorder) int {
+	const ctr = "c0"
+	n, turn := 0, 0
+	good, victim, malforms := malformTable()
+	other := C20Case{Ctr: "between", Anns: []Ann{
+		{Family: famDev, Scope: scopeCtr, Target: "between", Style: "block", Devices: []Dev{{Path: "/dev/between", Type: "c", Major: 1, Minor: 9}}},
+		{Family: famRlim, Scope: scopeCtr, Target: "between", Style: "block", Rlimits: []Rlim{{Type: "RLIMIT_NPROC", Hard: u64p(64), Soft: u64p(32)}}},
+	}}
+	for i := range other.Anns {
+		other.Anns[i].Text = (&renderer{ch: fixedChooser{}, style: "block"}).render(other.Anns[i].node())
+	}
+	patterns := [][]Step{{{Kind: "same"}}, {{Kind: "other", Other: &other}, {Kind: "same"}}, {{Kind: "renamed", Name: "c0-again"}, {Kind: "same"}}}
+	run := func(a Ann, text string) {
+		a.Text = text
+		for _, scope := range []string{scopeCtr, scopePod, scopeBare} {
+			if scope != scopeCtr && a.Family == famRlim {
+				continue // pod and bare keys are not the adjuster's
+			}
+			a.Scope, a.Target = scope, ""
+			if scope == scopeCtr {
+				a.Target = ctr
+			}
+			for _, then := range patterns {
+				c := C20Case{Ctr: ctr, Anns: []Ann{a}, Then: then}
+				raw := ev.Snapshot(c)
+				r.Journal(raw)
+				o := runC20(c)
+				r.ClearJournal()
+				o.Classes = append(o.Classes, "sweep:repetition")
+				r.Record(raw, o)
+				if o.Fail != "" {
+					t.Fatalf("C20: %s", o.Fail)
+				}
+				n++
+			}
+		}
+	}
+	render := func(style string, doc *node) string {
+		return (&renderer{ch: cycleChooser{&turn}, style: style}).render(doc)
+	}
+	for _, style := range []string{"block", "flow", "json"} {
+		for _, fam := range []string{famDev, famMnt, famRlim} {
+			for _, m := range malforms[fam] {
+				run(Ann{Family: fam, Style: style, Ill: m.name}, render(style, nL(good[fam](), m.do(victim[fam]()))))
+			}
+			// the document is not a list
+			run(Ann{Family: fam, Style: style, Ill: "scalar"}, render(style, nS("none")))
+			run(Ann{Family: fam, Style: style, Ill: "mapping"}, render(style, good[fam]()))
+			// well-formed
+			a := Ann{Family: fam, Style: style}
+			switch fam {
+			case famDev:
+				a.Devices = []Dev{{Path: "/dev/good", Type: "c", Major: 1, Minor: 3}, {Path: "/dev/victim", Type: "b", Major: 8, Minor: 1}}
+			case famMnt:
+				a.Mounts = []Mnt{{Source: "/good", Destination: "/mnt/good", Type: "bind", Options: []string{"ro"}}}
+			case famRlim:
+				a.Rlimits = []Rlim{{Type: "RLIMIT_CORE", Hard: u64p(10), Soft: u64p(5)}, {Type: "nofile", Hard: u64p(4096), Soft: u64p(1024)}}
+			}
+			run(a, render(style, a.node()))
+		}
+		name := func(s string) *node { return nS("vendor.com/device=" + s) }
+		run(Ann{Family: famCDI, Style: style, Ill: "elem_type"}, render(style, nL(name("a"), nM().put("name", name("b")))))
+		run(Ann{Family: famCDI, Style: style, Ill: "elem_type"}, render(style, nL(nL(name("a")), name("b"))))
+		run(Ann{Family: famCDI, Style: style, Ill: "scalar"}, render(style, name("a")))
+		run(Ann{Family: famCDI, Style: style, Ill: "mapping"}, render(style, nM().put("name", name("a"))))
+		a := Ann{Family: famCDI, Style: style, CDI: []string{"vendor.com/device=a", "vendor.com/device=b"}}
+		run(a, render(style, a.node()))
+	}
+	// broken syntax (block text)
+	for _, fam := range families {
+		run(Ann{Family: fam, Style: "block", Ill: "broken_syntax"}, "- \"unterminated\n")
+		run(Ann{Family: fam, Style: "flow", Ill: "broken_syntax"}, "[{type: a, path: b}")
+		run(Ann{Family: fam, Style: "block", Ill: "broken_syntax"}, "- type: a: b: c\n")
 	}
 	return n
 }
